@@ -188,6 +188,7 @@ pub fn property() -> Property {
             Tier::Thorough => 1200.0,
         },
         info: || PropInfo {
+            floors: vec![],
             rule: "one run = 1..8 scripted replicas holding authentic items of one key (seq patterns: ascending, gaps, duplicates, all-equal ties, random), per-replica response delays seeded so arrival orders vary; a real reader calls get_mutable_most_recent (async; sync Dht API through a helper thread in 1/4 of the runs). Expected = max (seq, value) over the items the trace shows delivered in time. Non-trivial = at least two items delivered and the maximum did not arrive first; distinct = hash of the arrival sequence (seq, value) x API flavour".into(),
             assumptions: vec!["loss-free network, RTT < 500 ms so every reply is in time".into()],
         },
